@@ -9,6 +9,7 @@ import BSVerif.Driver.MsgPack
 import BSVerif.Driver.Load
 import BSVerif.Driver.Cont
 import BSVerif.Driver.Valid
+import BSVerif.Driver.Adapter
 
 namespace BSVerif.Driver
 
@@ -27,6 +28,7 @@ def dispatch (toks : List String) (impl : Option String) : Option (String × Str
     else if t == "load.any" || t == "rt.any" then Load.handle toks impl
     else if t.startsWith "cont." then Cont.handle toks impl
     else if t.startsWith "val." then Valid.handle toks impl
+    else if t.startsWith "json." || t.startsWith "xml." then Adapter.handle toks impl
     else none
 
 end BSVerif.Driver
